@@ -326,7 +326,12 @@ func writeEvidence(path string, prop string, cfg runConfig, res *runResult, sel 
 		// an engine-level model that is restated as a contract in spec/deps.spec is verified against the
 		// standard library's source (under the properties the contract names), not assumed
 		if c, ok := e.db.Contracts[intrinsicContractKey(k)]; ok && c.Trusted == "" {
-			intrVerified = append(intrVerified, k+": "+d+" [model restated in spec/deps.spec and verified against the GOROOT source under "+strings.Join(c.Props, ",")+"]")
+			note := " [model restated in spec/deps.spec and verified against the GOROOT source under " + strings.Join(c.Props, ",") + "]"
+			if len(c.Bounded) > 0 {
+				// verified for a stated range of inputs only: outside it the model remains an assumption
+				note = " [model restated in spec/deps.spec and verified against the GOROOT source under " + strings.Join(c.Props, ",") + " ONLY WITHIN THE BOUND " + strings.Join(c.Bounded, "; ") + " -- assumed otherwise]"
+			}
+			intrVerified = append(intrVerified, k+": "+d+note)
 			continue
 		}
 		intr = append(intr, k+": "+d)
